@@ -1061,9 +1061,14 @@ async fn run_op(c: &str, n: i64, o: &Op) -> Res {
 
 async fn client(name: String, prog: Vec<Op>) {
     let mut n = 0i64;
+    let mut unclaimed = std::collections::HashSet::<String>::new();
     for o in prog.iter() {
         // an operation whose handle does not exist (a failed upgrade earlier) is skipped silently
-        if o.h != "none" && !TAB.with(|t| t.borrow().handles.contains_key(&o.h)) {
+        // (so is everything on a pooled handle whose `claim` came too early: it never became this client's)
+        if o.h != "none" && (unclaimed.contains(&o.h) || !TAB.with(|t| t.borrow().handles.contains_key(&o.h))) {
+            if o.op == "claim" {
+                unclaimed.insert(o.h.clone());
+            }
             continue;
         }
         n += 1;
